@@ -260,11 +260,8 @@ def quoteLeakScenario : Scenario where
   pragmaNoCache := false
   second := .plain
 
-/- Full statement (false): for every scenario with stock settings in which some response Cache-Control field line is a
-   well-formed list containing no-store, `(observe sc).kind = .miss`. `forbidden_never_served_from_cache` is the proved part:
-   the excluded region is "the directive is not seen by HttpHdrCc::parse", which `quote_leak_hides_no_store_counterexample`
-   shows to be inhabited and `wellformed_list_no_store_recognised` / `wellformed_list_private_recognised` show to be empty for
-   quote-balanced lists. -/
+/- Before 3db3b18 the statement read on the field lines as sent was false: `response_sent_with_no_store_or_private_never_served`
+   (below) did not hold, only its weaker form over all lines being quote-balanced (`wellformed_forbidden_response_never_served_partial`). -/
 
 /-- (While getCc joins the lines.) The second field line is exactly `no-store`, yet the joined header is read as the single unknown directive
     `x="a, no-store, max-age=3600`: nothing is recognised, the response is cached and the second request is a hit. -/
@@ -279,8 +276,7 @@ theorem quote_leak_hides_no_store_counterexample : Gen.Reusable.ccParsedPerLine 
 /-- first response `max-age=0` with a Last-Modified (stored, stale at once) -/
 def notModifiedScenario : Scenario := { quoteLeakScenario with respCc := [[109, 97, 120, 45, 97, 103, 101, 61, 48]] }
 
-/- Full statement (false for the pinned code): in every three-request scenario whose revalidation is answered by a 304
-   carrying no-store or private, the third request reaches the origin. -/
+/- Before ec4c541 `not_modified_with_no_store_not_reused` (below) was false. -/
 
 /-- (While the 304 branch of handleIMSReply does not look at the 304's Cache-Control.) The revalidation is answered with a
     304 carrying `no-store, max-age=3600`; the entry is refreshed, stays public and the third request is a hit. -/
